@@ -9,7 +9,7 @@ Section Sim.
   Variable W : Type.
   Variable p : rwp.
   Variable typeof : bool -> sval -> nat.
-  Variable tbl : list kpart -> option sval.
+  Variable tbl : nat -> list kpart -> option sval.
   Variable callv : sval -> list sval -> list (nat * sval) -> W -> outcome sval * W * list event.
   Variable binop : nat -> sval -> sval -> outcome sval.
   Variable getattr : sval -> nat -> outcome sval.
@@ -385,8 +385,8 @@ Section Sim.
                       (EVL true cb' rho (fst (rw_kwparts p k (snd (rw_pos p k 0 (S k) ar)) kw)) s2')) ->
       rsim vrel (EV false cb rho (ECall f ar kw) s)
                 (EV true cb' rho
-                    (ECall (ESub (EName NMap)
-                                 (ETuple (code_part cn (eapp (fst (rw_pos p k 0 (S k) ar))
+                    (ECall (ESub (EName (NMap (p_id p)))
+                                 (ETuple (code_part p cn (eapp (fst (rw_pos p k 0 (S k) ar))
                                                              (fst (rw_kwparts p k (snd (rw_pos p k 0 (S k) ar)) kw))))))
                            (self_arg p (tmp_args k 0 ar)) (tmp_kws k kw)) s').
     Proof.
@@ -397,14 +397,14 @@ Section Sim.
       set (kparts := fst (rw_kwparts p k k1 kw)) in *.
       rewrite !ev_ECall, ev_ESub, !ev_EName.
       destruct (lc_special s s' rho (NUser i) false Hs Hsp) as [-> _]. rewrite Hgenv.
-      destruct (lc_special s s' rho NMap true Hs eq_refl) as [_ ->]. simpl genv. cbn [obind].
+      destruct (lc_special s s' rho (NMap (p_id p)) true Hs eq_refl) as [_ ->]. simpl genv. cbn [obind].
       rewrite ev_ETuple.
       (* the key tuple: code object first for call_next *)
-      assert (Hparts : EVL true cb' rho (code_part cn (eapp pparts kparts)) s' =
+      assert (Hparts : EVL true cb' rho (code_part p cn (eapp pparts kparts)) s' =
                        obind W (EVL true cb' rho (eapp pparts kparts) s')
-                             (fun vs s1 => Some (Val ((if cn then [VPrim PCode] else []) ++ vs), s1))).
+                             (fun vs s1 => Some (Val ((if cn then [VPrim (PCode (p_code p))] else []) ++ vs), s1))).
       { destruct cn; simpl code_part.
-        - rewrite evl_cons, ev_EName. destruct (lc_special s s' rho NCode true Hs eq_refl) as [_ ->]. simpl genv. cbn [obind].
+        - rewrite evl_cons, ev_EName. destruct (lc_special s s' rho (NCode (p_code p)) true Hs eq_refl) as [_ ->]. simpl genv. cbn [obind].
           destruct (EVL true cb' rho (eapp pparts kparts) s') as [[[v|x] s1]|]; reflexivity.
         - destruct (EVL true cb' rho (eapp pparts kparts) s') as [[[v|x] s1]|]; reflexivity. }
       rewrite Hparts, ev_list_app. clear Hparts.
@@ -425,8 +425,8 @@ Section Sim.
         - apply Hx. intros _ Hin. apply in_map_iff in Hin. destruct Hin as (o & Ho & _). discriminate. }
       (* the table lookup *)
       unfold subscript.
-      assert (Hkey : key_of ((if cn then [VPrim PCode] else []) ++ tyvals 0 vs' ++ kwvals ks') =
-                     Some ((if cn then [KC] else []) ++ pos_key p typeof 0 vs' ++ kw_key p typeof ks')).
+      assert (Hkey : key_of ((if cn then [VPrim (PCode (p_code p))] else []) ++ tyvals 0 vs' ++ kwvals ks') =
+                     Some ((if cn then [KC (p_code p)] else []) ++ pos_key p typeof 0 vs' ++ kw_key p typeof ks')).
       { apply key_of_app; [destruct cn; reflexivity|]. apply key_of_app; [apply key_of_tyvals | apply key_of_kwvals]. }
       rewrite Hkey.
       (* the original: the documented callable *)
@@ -437,7 +437,7 @@ Section Sim.
       assert (Hbind : entry_bind p vs ks = Some (vs, ks)).
       { apply entry_bind_id. apply (kw_keys_named kw Hnamed ks Hkeys0). }
       assert (Hl : APPLY cb (VPrim (if cn then PCallNext else PRecurse)) vs ks s2 =
-                   Some (match tbl ((if cn then [KC] else []) ++ pos_key p typeof 0 vs' ++ kw_key p typeof ks') with
+                   Some (match tbl (p_id p) ((if cn then [KC (p_code p)] else []) ++ pos_key p typeof 0 vs' ++ kw_key p typeof ks') with
                          | None => (Raise XNoMethod, s2)
                          | Some c => call_user W callv c (self_list p mself ++ vs) ks s2
                          end)).
@@ -536,7 +536,7 @@ Section Sim.
       destruct q; try exact Hg. unfold subscript.
       destruct Hi as [z|z| |z|z|z|k a a' Ha|? ? ? ? ? ?|q|Hm]; simpl; auto.
       destruct k as [|[|k]]; simpl; auto.
-      rewrite (key_of_rel _ _ Ha). destruct (key_of a'); simpl; auto. destruct (tbl l); simpl; auto. apply vrel_inj.
+      rewrite (key_of_rel _ _ Ha). destruct (key_of a'); simpl; auto. destruct (tbl _ l); simpl; auto. apply vrel_inj.
     Qed.
 
     Lemma ev_lookup_call : forall n key e' rho s0 s', srel s0 s' ->
@@ -619,17 +619,17 @@ Section Sim.
         destruct c; simpl; constructor.
       - (* EName *) intros x Hd k rho s s' Hs Ht. cbn [rw fst]. rewrite !ev_EName. apply rsim_ret; auto.
         simpl in Hd. unfold mention_ok in Hd. bsplit.
-        assert (Hcase : rw_name p x = x \/ exists i, x = NUser i /\ is_sym (p_rs p) i = true /\ rw_name p x = NOvld).
+        assert (Hcase : rw_name p x = x \/ exists i, x = NUser i /\ is_sym (p_rs p) i = true /\ rw_name p x = NOvld (p_id p)).
         { destruct x; simpl; auto. destruct (is_sym (p_rs p) i) eqn:Er; eauto. }
         destruct Hcase as [-> | (i & -> & Er & ->)].
         + pose proof (lookup_chain_rel W p ugl mself s s' rho x Hs H H2) as Hl. unfold RewriteRel.orel in Hl.
           destruct (LC false s rho x), (LC true s' rho x); try contradiction; simpl; auto.
         + assert (Hm : a_method (p_anal p) = false).
-          { simpl in H0. rewrite Er in H0. simpl in H0. rewrite !andb_true_r in H0. exact H0. }
+          { simpl in H0. rewrite Er in H0. simpl in H0. rewrite ?Nat.eqb_refl, ?andb_true_r in H0. exact H0. }
           simpl in H1.
           assert (Hsp : special p (NUser i) = true) by (simpl; rewrite Er; reflexivity).
           destruct (lc_special s s' rho (NUser i) false Hs Hsp) as [-> _].
-          destruct (lc_special s s' rho NOvld true Hs eq_refl) as [_ ->].
+          destruct (lc_special s s' rho (NOvld (p_id p)) true Hs eq_refl) as [_ ->].
           simpl. rewrite H1, Er. simpl. apply vr_rec. exact Hm.
       - (* EAttr *) intros e IH a Hd k rho s s' Hs Ht. simpl in Hd. rwstep. rewrite !ev_EAttr.
         eapply rsim_bind; [apply IH; auto|]. intros v v' s1 s1' E E' Hv Hs1. apply rsim_ret; auto.
